@@ -71,3 +71,16 @@ Print Assumptions C12_source_rule_sites_found.
 (* non-vacuity: a run started at cutoff 1 grows (the pre-fix rule max(c, n + n/2) would stay at 1) *)
 Example C12_ex_growth_from_one : cutoffs 1 [1; 2; 3; 5] = [1; 2; 4; 5; 8].
 Proof. reflexivity. Qed.
+
+(* closed form of any run: the cutoff after the run is exactly max(initial, n + n/2 + 1 over the counts
+   seen) — the least value the rule allows, independent of the order in which the counts occurred *)
+Theorem C12_run_closed_form : forall ns c,
+  nth (length ns) (cutoffs c ns) 0 = Nat.max c (list_max (map need ns)).
+Proof. exact cutoffs_closed_form. Qed.
+Print Assumptions C12_run_closed_form.
+
+(* a run whose counts never demand more than the current cutoff leaves it unchanged at every step *)
+Theorem C12_run_stable : forall ns c, Forall (fun n => need n <= c) ns ->
+  forall i, i <= length ns -> nth i (cutoffs c ns) 0 = c.
+Proof. exact cutoffs_stable. Qed.
+Print Assumptions C12_run_stable.
